@@ -95,3 +95,12 @@ claim("C13", "E1-bfs", "same explicit-state BFS over real directories; listing o
       "In each of the ≈28k (quick) distinct states of the C12 exploration: list(dir, glob, localized) for 7 directories (root, nested, trailing slash, missing, a file) x 5 globs x localized/unlocalized and subdirectories() must equal the sorted de-duplicated union computed from the layer trees by an independent matcher; every listed path must exist(); a localized listing must equal the unlocalized listing of the localized directory.",
       "Trusted: the glob family semantics implemented in fsx.rs (None/**/*, *, *.bin, **/*.txt), the read_dir walker.",
       "DESIGN.md §4 C12/C13")
+
+claim("C19", "E2-enumerate", "bounded-exhaustive enumeration of pixel positions, pixel values and ETC1 block parameters against independent reference decoders, both arithmetic builds with a direct cross-build comparison",
+      "Position: every format x sizes with index-revealing payloads decides the Morton tile walk / ETC block order for every pixel. Value: all 65 536 values of every 16-bit format and of RGB5A3, all 256 of the 8-bit ones. ETC1/ETC1A4: all 256 (mode, flip, table1, table2) x all base pairs / all defined base-delta pairs per channel x 20 selector planes (3.8M blocks, three observation routes), undefined sums only for no-panic and build equality. CI8 palettes at every w x h in 1..=17 (64 thorough). ≈11.9M cases per build; 437k outputs compared between the builds.",
+      "Trusted: ref_pix.rs (written from the hardware/Khronos definitions), ref_tex.rs CTPK builder used to reach the private decoder. Tolerance rule for non-ETC channels is the literal '≤ one quantisation step'.",
+      "DESIGN.md §4 C19")
+claim("C20", "E2-enumerate + E3-isolate", "bounded-exhaustive enumeration of texture lists x container layout families read back through mila; every strict prefix of generated files swept in isolated workers; both builds",
+      "325 3DS / 55 TPL texture lists (every pool texture alone, covering lists up to 3 textures; 6 thorough) packed into every layout of CTPK (192), BCH (768, four compat bytes), CGFX (256 forward) and TPL (192): ≈406k files per build must return the same count, order, names, dimensions and pixels (= reference decoding of each texture's own payload). 18.6k wrong-magic files must be rejected. All 3.6M strict prefixes of 2 438 files are parsed under subprocess isolation: never a panic/abort, Err whenever the cut removes payload bytes.",
+      "Trusted: ref_tex.rs builders (field offsets from DESIGN Appendix A — a misreading shared with the parsers would go unnoticed), ref_pix.rs. CGFX backward self-relative offsets are exercised in the unchecked build only and recorded as an observation.",
+      "DESIGN.md §4 C20")
